@@ -176,8 +176,18 @@ def app_message(seed, side, k, law="small", charset="ascii"):
     return m
 
 
-def body_fingerprint(msg):
-    """Content of an application message independent of header/trailer fields."""
+def body_fingerprint(msg, view=None):
+    """Content of an application message independent of header/trailer fields.
+
+    view="sent": values as the bytes the encoder puts on the wire (utf-8); view="recv": values as the
+    bytes the decoder saw (it decodes one char per byte) - the two are comparable for any charset."""
+    def val(v):
+        if view == "sent":
+            return str(v).encode("utf-8", "surrogatepass")  # lone surrogates: the send is refused anyway
+        if view == "recv":
+            return str(v).encode("latin-1")
+        return v
+
     skip = {"8", "9", "10", "35", "34", "49", "56", "52", "43", "122", "97"}
     out = []
 
@@ -191,8 +201,8 @@ def body_fingerprint(msg):
                 for i, g in enumerate(items):
                     walk(g, f"{prefix}{t}[{i}].")
             else:
-                out.append((prefix + t, c.tags[t]))
+                out.append((prefix + t, val(c.tags[t])))
 
-    out.append(("35", str(msg.msg_type)))
+    out.append(("35", val(str(msg.msg_type))))
     walk(msg, "")
     return tuple(out)
